@@ -99,7 +99,10 @@ func (p *ProjectRunner) Run() error {
 	log.Debug().Msgf("Spinning up %d processes. Order: %q", len(runOrder), nameOrder)
 	for _, proc := range runOrder {
 		newConf := proc
-		p.runProcess(&newConf)
+		if !p.launchProcess(&newConf, true) {
+			log.Info().Msgf("Project shutdown requested - not starting %s and the processes after it", proc.ReplicaName)
+			break
+		}
 	}
 	p.waitGroup.Wait()
 	log.Info().Msg("Project completed")
@@ -110,6 +113,14 @@ func (p *ProjectRunner) Run() error {
 }
 
 func (p *ProjectRunner) runProcess(config *types.ProcessConfig) {
+	p.launchProcess(config, false)
+}
+
+// launchProcess registers the process and starts its goroutine. With unlessShuttingDown
+// (the automatic start-up in Run) it does nothing and returns false once a project
+// shutdown has been requested: the shutdown only stops the processes that are registered
+// when it takes its snapshot, so anything registered later would outlive it.
+func (p *ProjectRunner) launchProcess(config *types.ProcessConfig, unlessShuttingDown bool) bool {
 	procLogger := p.logger
 	if isStringDefined(config.LogLocation) {
 		procLogger = pclog.NewLogger()
@@ -141,7 +152,9 @@ func (p *ProjectRunner) runProcess(config *types.ProcessConfig) {
 		withIsMain(isMain),
 		withExtraArgs(extraArgs),
 	)
-	p.addRunningProcess(process)
+	if !p.addRunningProcess(process, unlessShuttingDown) {
+		return false
+	}
 	p.waitGroup.Add(1)
 	go func(proc *Process) {
 		defer p.removeRunningProcess(proc)
@@ -158,6 +171,7 @@ func (p *ProjectRunner) runProcess(config *types.ProcessConfig) {
 			p.onProcessEnd(exitCode, proc.procConf)
 		}
 	}(process)
+	return true
 }
 
 func (p *ProjectRunner) waitIfNeeded(process *types.ProcessConfig) error {
@@ -300,10 +314,17 @@ func (p *ProjectRunner) getProcessesStateData(filter filterFn) error {
 	return nil
 }
 
-func (p *ProjectRunner) addRunningProcess(process *Process) {
+// addRunningProcess registers the process; with unlessShuttingDown it refuses (returns
+// false) once a project shutdown has been requested. ShutDownProject raises the flag
+// before it takes runProcMutex, so a process is either in the shutdown's snapshot or refused.
+func (p *ProjectRunner) addRunningProcess(process *Process, unlessShuttingDown bool) bool {
 	p.runProcMutex.Lock()
+	defer p.runProcMutex.Unlock()
+	if unlessShuttingDown && p.isShuttingDown.Load() {
+		return false
+	}
 	p.runningProcesses[process.getName()] = process
-	p.runProcMutex.Unlock()
+	return true
 }
 
 func (p *ProjectRunner) addDoneProcess(process *Process) {
@@ -749,7 +770,7 @@ func (p *ProjectRunner) renameProcess(name string, newName string) {
 	if process != nil {
 		p.removeRunningProcess(process)
 		process.setName(newName)
-		p.addRunningProcess(process)
+		p.addRunningProcess(process, false)
 	}
 	logs := p.removeProcessLogs(name)
 	if logs != nil {
